@@ -13,11 +13,14 @@ use std::time::{Duration, Instant};
 
 pub const SUPERVISED: &[&str] = &["C04", "C08", "C12", "C13", "C19"];
 
-pub fn fuzz_targets_for(id: &str) -> &'static [&'static str] {
+/// (target, build mode) pairs: `asan` = AddressSanitizer + debug assertions,
+/// `asanrel` = AddressSanitizer without debug assertions (as shipped).
+pub fn fuzz_targets_for(id: &str) -> &'static [(&'static str, &'static str)] {
     match id {
-        "C08" => &["fz_bytes"],
-        "C19" => &["fz_frontend"],
-        "C12" | "C13" => &["fz_vec"],
+        "C08" => &[("fz_bytes", "asan"), ("fz_bytes", "asanrel")],
+        "C19" => &[("fz_frontend", "asan")],
+        "C12" | "C13" => &[("fz_vec", "asan")],
+        "C01" => &[("fz_round", "asan")],
         _ => &[],
     }
 }
@@ -108,6 +111,70 @@ fn investigate(ctx: &Ctx, name: &str, bin: &Path, build_dir: &Path, budget: Dura
     Ok(None)
 }
 
+/// Run the libFuzzer campaigns registered for this property.
+/// Returns (violations, reports, harness_error).
+pub fn fuzz_stage(ctx: &Ctx, build_dir: &Path, budget: Duration) -> (u64, Vec<Value>, Option<String>) {
+    let mut violations = 0u64;
+    let mut harness_error: Option<String> = None;
+    let mut fuzz_reports: Vec<Value> = Vec::new();
+    let fuzz_dir = PathBuf::from(std::env::var("MLV_FUZZ_DIR").unwrap_or_else(|_| ctx.verif_dir.join("fuzz").display().to_string()));
+    for (target, mode) in fuzz_targets_for(&ctx.id) {
+        let script = fuzz_dir.join("campaign.sh");
+        if !script.exists() {
+            harness_error.get_or_insert(format!("fuzz campaign script {} missing", script.display()));
+            continue;
+        }
+        let report = build_dir.join(format!("fuzz-{}-{}-{}.json", ctx.id, target, mode));
+        let _ = std::fs::remove_file(&report);
+        let args = vec![target.to_string(), ctx.tier.name().to_string(), ctx.id.clone(), report.display().to_string(), mode.to_string()];
+        let r = run_child(&script, &args, &[("VERIF_SEED", ctx.seed.to_string())], budget);
+        match r.status.and_then(|s| s.code()) {
+            Some(0) => {}
+            Some(1) => violations += 1, // campaign.sh printed the VIOLATION line
+            _ => {
+                harness_error.get_or_insert(format!("fuzz campaign {target} ({mode}) was inconclusive"));
+            }
+        }
+        if let Some(v) = read_json(&report) {
+            fuzz_reports.push(v);
+        }
+    }
+    (violations, fuzz_reports, harness_error)
+}
+
+/// For properties that are not process-supervised: run the registered fuzz
+/// campaigns after the in-process check and merge them into the evidence file.
+pub fn fuzz_poststep(ctx: &Ctx, code: i32) -> i32 {
+    if fuzz_targets_for(&ctx.id).is_empty() || code != 0 {
+        return code;
+    }
+    let build_dir = PathBuf::from(std::env::var("MLV_BUILD_DIR").unwrap_or_else(|_| ctx.verif_dir.join("build").display().to_string()));
+    let budget = Duration::from_secs(if ctx.tier.name() == "quick" { 1800 } else { 6 * 3600 });
+    let (violations, reports, err) = fuzz_stage(ctx, &build_dir, budget);
+    let epath = ctx.verif_dir.join("evidence").join(format!("{}.json", ctx.id));
+    if let Some(mut ev) = read_json(&epath) {
+        let execs: u64 = reports.iter().map(|r| r["executions"].as_u64().unwrap_or(0)).sum();
+        let base = ev["coverage"]["evaluations"].as_u64().unwrap_or(0);
+        ev["coverage"]["evaluations"] = json!(base + execs);
+        ev["coverage"]["fuzz"] = json!(reports);
+        ev["coverage"]["note"] = json!("evaluations = generated proptest cases + libFuzzer executions (second engine); distinct_nontrivial counts proptest cases only");
+        ev["violations"] = json!(ev["violations"].as_u64().unwrap_or(0) + violations);
+        ev["wall_s"] = json!(ctx.start.elapsed().as_secs_f64());
+        let _ = std::fs::write(&epath, serde_json::to_string_pretty(&ev).unwrap());
+    }
+    if violations > 0 {
+        println!("FAIL property={} fuzz stage found {} violation(s)", ctx.id, violations);
+        return 1;
+    }
+    if let Some(e) = err {
+        eprintln!("HARNESS-ERROR property={} {}", ctx.id, e);
+        println!("INCONCLUSIVE property={} {} (exit 2)", ctx.id, e);
+        return 2;
+    }
+    println!("OK property={} fuzz stage: {} campaign(s), no crash", ctx.id, reports.len());
+    0
+}
+
 fn read_json(p: &Path) -> Option<Value> {
     serde_json::from_str(&std::fs::read_to_string(p).ok()?).ok()
 }
@@ -181,28 +248,10 @@ pub fn run(ctx: &Ctx) -> i32 {
         }
     }
     // coverage-guided fuzzing stage
-    let mut fuzz_reports: Vec<Value> = Vec::new();
-    let fuzz_dir = PathBuf::from(std::env::var("MLV_FUZZ_DIR").unwrap_or_else(|_| ctx.verif_dir.join("fuzz").display().to_string()));
-    for target in fuzz_targets_for(&ctx.id) {
-        let script = fuzz_dir.join("campaign.sh");
-        if !script.exists() {
-            harness_error.get_or_insert(format!("fuzz campaign script {} missing", script.display()));
-            continue;
-        }
-        let report = build_dir.join(format!("fuzz-{}-{}.json", ctx.id, target));
-        let _ = std::fs::remove_file(&report);
-        let args = vec![target.to_string(), ctx.tier.name().to_string(), ctx.id.clone(), report.display().to_string()];
-        let r = run_child(&script, &args, &[("VERIF_SEED", ctx.seed.to_string())], budget);
-        match r.status.and_then(|s| s.code()) {
-            Some(0) => {}
-            Some(1) => violations += 1, // campaign.sh printed the VIOLATION line
-            _ => {
-                harness_error.get_or_insert(format!("fuzz campaign {target} was inconclusive"));
-            }
-        }
-        if let Some(v) = read_json(&report) {
-            fuzz_reports.push(v);
-        }
+    let (fv, fuzz_reports, ferr) = fuzz_stage(ctx, &build_dir, budget);
+    violations += fv;
+    if let Some(e) = ferr {
+        harness_error.get_or_insert(e);
     }
     if violations == 0 {
         if let Some(e) = harness_error {
